@@ -383,7 +383,7 @@ def check_case(case):
                     scale = [[float(fmt(Ainv[i, j], 6)) for j in range(3)] + [float(fmt(shift[i], 5))] for i in range(3)]
                     atoms = []
                     occs = [1.0, 0.5, 0.25] if tier == "quick" else [1.0, 0.75, 0.5, 0.25, 0.01]
-                    bs = [0.0, 12.34, 99.99] if tier == "quick" else [0.0, 1.0, 12.34, 50.0, 99.99]
+                    bs = [0.0, 12.34, 99.99, 100.0, 120.5] if tier == "quick" else [0.0, 1.0, 12.34, 50.0, 99.99, 100.0, 120.5, 999.99]
                     ser = 0
                     for (occ, bb), rec in zip(itertools.product(occs, bs), itertools.cycle(["ATOM", "HETATM"])):
                         ser += 1
